@@ -223,11 +223,11 @@ theorem textOf_meaning (name : Bytes) (rest : List QEv) (d : Nat) : ∀ (run : L
   | .decl :: _, _, hm | .doctype :: _, _, hm | .err :: _, _, hm => by simp [charsMeaning] at hm
 
 /-- a string element is read as the string its character data denotes -/
-theorem readString_meaning (X : Ext) (name : Bytes) (rest : List QEv) (d : Nat) (run : List QEv) (m : Bytes)
+theorem readString_meaning (X : Ext) (name a : Bytes) (rest : List QEv) (d : Nat) (run : List QEv) (m : Bytes)
     (hm : charsMeaning run = some m) :
-    readStringElement X name (deEventsAt (d + 1) (run ++ .stop name :: rest)) = .ok (.str m, deEventsAt d rest) := by
+    readStringElement X name a (deEventsAt (d + 1) (run ++ .stop name :: rest)) = .ok (.str m, deEventsAt d rest) := by
   obtain ⟨raw, h1, h2⟩ := textOf_meaning name rest d run m hm
-  have hd : decode X .str (deEventsAt (d + 1) (run ++ .stop name :: rest))
+  have hd : decode X .str a (deEventsAt (d + 1) (run ++ .stop name :: rest))
       = .ok (.str m, .stop name :: deEventsAt d rest) :=
     decode_scalar_ok X .str rfl h1 (by simp [decodeScalarText, h2, Except.map])
   simp [readStringElement, hd, expectEnd_stop]
